@@ -242,6 +242,50 @@ void adapter_exec(Ev *ev)
         if (cls(r.code) != 2) image(ev);
         return;
     }
+    if (ev_is(ev, "sweep16")) {
+        /* every 16-bit value through set (+get): accept set as intervals, count of inexact stores/read-backs */
+        RegisterHandle h = (RegisterHandle)ev->a[0];
+        int ty = tyindex(entries[h].type);
+        long long bad = 0, niv = 0;
+        int at = ev->no, open = 0;
+        long long start = 0;
+        obs(ev, 0);
+        size_t total = 0;
+        for (int i = 0; i < na; i++) total += (size_t)A[i].size;
+        RegisterAtom *snap = malloc(total * sizeof(RegisterAtom) + 2);
+        for (long long x = 0; x < 65536; x++) {
+            size_t o = 0;
+            for (int i = 0; i < na; i++) { memcpy(snap + o, store[i], (size_t)A[i].size * 2); o += (size_t)A[i].size; }
+            long long w[4] = { 0, 0, 0, x };
+            RegisterValue v; v.type = tymap[ty]; v.value = mkval(ty, w);
+            RegisterAccess r = ev->a[1] ? register_set_unsafe(&T, h, v) : register_set(&T, h, v);
+            int ok = r.code == REG_ACCESS_SUCCESS;
+            if (ok) {
+                RegisterValue g; memset(&g, 0, sizeof g);
+                RegisterAccess rg = register_get(&T, h, &g);
+                uint16_t gv = ty == 0 ? g.value.u16 : (uint16_t)g.value.s16;
+                if (rg.code != REG_ACCESS_SUCCESS || g.type != tymap[ty] || gv != (uint16_t)x) bad++;
+                /* exactly the register's word changed, and it holds x in table order */
+                o = 0;
+                for (int i = 0; i < na; i++)
+                    for (long long k = 0; k < A[i].size; k++, o++) {
+                        long long addr = A[i].base + k;
+                        if (addr == (long long)entries[h].address) { if (atom2word(store[i][k]) != x) bad++; }
+                        else if (store[i][k] != snap[o]) bad++;
+                    }
+            } else {
+                o = 0;
+                for (int i = 0; i < na; i++) { if (memcmp(snap + o, store[i], (size_t)A[i].size * 2) != 0) bad++; o += (size_t)A[i].size; }
+            }
+            if (ok && !open) { open = 1; start = x; }
+            if (!ok && open) { open = 0; obs(ev, start); obs(ev, x - 1); niv++; }
+        }
+        if (open) { obs(ev, start); obs(ev, 65535); niv++; }
+        ev->o[at] = niv;
+        obs(ev, bad);
+        free(snap);
+        return;
+    }
     if (ev_is(ev, "get")) {
         RegisterValue v;
         memset(&v, 0, sizeof v);
